@@ -240,6 +240,7 @@ def run(ctx):
                  "harness/translate_vrptw.py (ast -> Gallina printer for Node/Arc constructors and the add_node / "
                  "get_node_index / add_arc / set_depot / estimate_max_vehicles methods of VRPTW, RoutingProblem "
                  "and SequenceBasedRoutingProblem) with the Python vocabulary of coq/theories/PyVrptw.v")
+    from props import pysem; pysem.run(ctx, pysem.GROUPS_FOR.get(ctx.pid, ()))
     rng = ctx.rng
     n_random = 300 if ctx.quick else 20000
     ex_len = 4      # 11 110 histories for the base class, 1 110 for each sequence class
